@@ -1645,6 +1645,10 @@ func (p *Parser) evaluateSwitch(ctx context) (Statement, error) {
 	if switchExprValueType.IsSlice() {
 		return nil, p.atError("slices are not allowed in switch statements", exprToken)
 	}
+
+	if dataType := switchExprValueType.DataType(); dataType == DATA_TYPE_UNKNOWN || dataType == DATA_TYPE_MULTIPLE {
+		return nil, p.atError("a switch statement requires a single value", exprToken)
+	}
 	beginToken := p.eat()
 
 	if beginToken.Type() != lexer.OPENING_CURLY_BRACKET {
